@@ -21,6 +21,11 @@ pub open spec fn fits128(a: Seq<Coin>, b: Seq<Coin>) -> bool { forall|d: Seq<cha
 // normalize keeps every denomination's total (when it fits 128 bits) and yields a normalised list
 pub axiom fn axiom_nb_normalize(v: Seq<Coin>, d: Seq<char>)
     ensures nb_wf(nb_normalize(v)), amt(v, d) <= u128::MAX ==> amt(nb_normalize(v), d) == amt(v, d);
+// a normalised balance lists every denomination at most once and no zero amount (cw-utils 2.0.0 NativeBalance::normalize
+// merges duplicates and drops zeros; checked by the differential test replay/prelude_crosscheck.rs)   ASSUMED
+pub open spec fn nb_unique(v: Seq<Coin>) -> bool { forall|i: int, j: int| 0 <= i < j < v.len() ==> (#[trigger] v[i]).denom@ != (#[trigger] v[j]).denom@ }
+pub axiom fn axiom_nb_wf_unique(v: Seq<Coin>)
+    ensures nb_wf(v) ==> nb_unique(v) && all_pos(v);
 pub axiom fn axiom_nb_wf_empty()
     ensures nb_wf(Seq::<Coin>::empty());
 // a + b adds denomination-wise (u128 overflow panics: the statement is for sums that fit)
